@@ -70,6 +70,6 @@ func (ip IPv4) SetLen(b []byte, n int) {
 
 // SetAddrs sets the source and destination address
 func (ip IPv4) SetAddrs(b []byte, src, dst net.IP) {
-	copy(b[12:16], src[12:16])
-	copy(b[16:20], dst[12:16])
+	copy(b[12:16], src.To4())
+	copy(b[16:20], dst.To4())
 }
